@@ -57,7 +57,8 @@ def decide(pid, mod, root, tier):
         except Exception as e:  # noqa - the second view is optional; its failure leaves the plain outcome
             res.notes.append(f"helper-inlined view not built: {type(e).__name__}: {e}")
             return res, err, extra
-        if not rep["inlined"] and not rep.get("normalised") and not rep.get("constants_folded") and not rep.get("scalarised"):
+        if not rep["inlined"] and not rep.get("normalised") and not rep.get("constants_folded") and not rep.get("scalarised") and not rep.get("literal_factories_folded") \
+                and not rep.get("removed"):
             return res, err, extra
         try:
             res2, err2, extra2 = _run(pid, mod, tmp, tier)
